@@ -77,9 +77,9 @@ func (r *RunCtx) Violate(prop, check string, disc map[string]string, format stri
 	r.Viol = append(r.Viol, v)
 }
 
-func (r *RunCtx) Count(name string)          { r.Stats[name]++ }
-func (r *RunCtx) Add(name string, n int64)   { r.Stats[name] += n }
-func (r *RunCtx) State(key string)           { r.States[key] = true }
+func (r *RunCtx) Count(name string)        { r.Stats[name]++ }
+func (r *RunCtx) Add(name string, n int64) { r.Stats[name] += n }
+func (r *RunCtx) State(key string)         { r.States[key] = true }
 func (r *RunCtx) Probe(name string, hit bool) {
 	if hit {
 		r.Stats["p:"+name]++
@@ -104,19 +104,19 @@ func (r *RunCtx) Digest() string { return hex.EncodeToString(r.logHash.Sum(nil))
 
 // RunReport is what a worker writes per run.
 type RunReport struct {
-	Prop    string            `json:"prop"`
-	Seed    uint64            `json:"seed"`
-	Digest  string            `json:"digest"`
-	Events  int               `json:"events"`
-	SimSecs int64             `json:"sim_secs"`
-	Viol    []Violation       `json:"viol,omitempty"`
-	Stats   map[string]int64  `json:"stats"`
-	Cross   map[string]int64  `json:"cross,omitempty"`
-	States  []string          `json:"states"`
-	Sample  json.RawMessage   `json:"sample,omitempty"`
-	Script  *Script           `json:"script,omitempty"`
-	WallMs  int64             `json:"wall_ms"`
-	Infra   string            `json:"infra,omitempty"` // harness/infrastructure failure (exit 2), never a verdict
+	Prop    string           `json:"prop"`
+	Seed    uint64           `json:"seed"`
+	Digest  string           `json:"digest"`
+	Events  int              `json:"events"`
+	SimSecs int64            `json:"sim_secs"`
+	Viol    []Violation      `json:"viol,omitempty"`
+	Stats   map[string]int64 `json:"stats"`
+	Cross   map[string]int64 `json:"cross,omitempty"`
+	States  []string         `json:"states"`
+	Sample  json.RawMessage  `json:"sample,omitempty"`
+	Script  *Script          `json:"script,omitempty"`
+	WallMs  int64            `json:"wall_ms"`
+	Infra   string           `json:"infra,omitempty"` // harness/infrastructure failure (exit 2), never a verdict
 }
 
 func (r *RunCtx) Report() *RunReport {
